@@ -499,6 +499,8 @@ def _call_false(lit, name):
 
 
 def check(ctx):
+    from . import c14 as _c14
+    _c14.check_finalized_before_install(ctx)   # "needs compaction" is computed for every installed version
     check_work_scheduled(ctx)
     la = lockmodel.analysis(ctx)
     check_balance(ctx, la)
